@@ -45,6 +45,22 @@ def run_prop(pid, repo, tier, seed=0, evidence_dir=None, quiet=False):
         if st != 0:
             print(f"SELFTEST-WARNING property={pid}: self-test variants did not behave as recorded (./check selftest {pid})")
         selftest.annotate_evidence(pid)
+        # metamorphic self-check: behaviour-preserving variants of the current tree must get the same verdict
+        if not os.environ.get("LXS_NO_METAMORPH"):
+            try:
+                from . import metamorph
+                mm = metamorph.run(pid, repo=repo, seed=seed)
+                if mm["not_silent"]:
+                    print(f"SELFTEST-WARNING property={pid}: {len(mm['not_silent'])} behaviour-preserving variant(s) changed the verdict "
+                          f"(tools/rename_fuzz.py / tools/refactor_fuzz.py {pid})")
+                p = os.path.join(evidence_dir or os.path.join(VERIF, "evidence"), f"{pid}.json")
+                ev = json.load(open(p))
+                ev["coverage"]["metamorphic"] = mm
+                json.dump(ev, open(p, "w"), indent=1)
+                print(f"{pid} [thorough] metamorphic: {mm['variants']} behaviour-preserving variants ({mm['renames']} renames, "
+                      f"{mm['refactorings']} refactorings): {mm['outcomes']}")
+            except Exception as e:
+                print(f"SELFTEST-WARNING property={pid}: metamorphic self-check did not run ({type(e).__name__}: {e})")
     return rc
 
 
